@@ -185,10 +185,11 @@ def query_rules(ctx, s):
            spec("sq_dist <= sq_radius") in known and spec("coord_index != -1") in known and geometry,
            "an atom is returned exactly when its distance to the query point does not exceed the radius (<=, measured between query i "
            "and the stored coordinates of the candidate)", keep[0].lineno)
-    sq = [v for v in defs.get("sq_radii", [])]
+    from ..exprnorm import local_value
+    sqv = local_value(ga, "sq_radii")
     ctx.ob("R4.distance-filter", CL, "CellList.get_atoms", "sq_radii = radius * radius (per query, or the one radius for all)",
-           len(sq) == 2 and any(same_expr(v, "radius * radius") for v in sq)
-           and any(same_expr(v, "np.full(len(coord), radius[0] * radius[0], dtype=np.float32)") for v in sq),
+           sqv is not None and any(same_expr(sqv, f"radius * radius if is_multi_radius else np.full(len({n_}), radius[0] * radius[0], dtype=np.float32)")
+                                   for n_ in ("coord", "radius")),       # _prepare_vectorization: len(radius) == len(coord)
            "the threshold compared with the squared distance is the square of the query's radius", ga.lineno)
     # ---- periodic lists: each public query wraps ITS coordinates into the box first, so that the cell search and the distance
     # measurement see the same point
